@@ -217,6 +217,11 @@ theorem cipher_nonzero (ske : AESxCBC) (lv : Leaves) (key msg : Bytes) (t t' : T
     rw [hpre, hnz] at this
     cases this
 
+theorem cipher_suffix {ske : AESxCBC} {lv : Leaves} {key msg : Bytes} {t t' : Tape} {c : Bytes}
+    (h : skeEncrypt ske lv key msg t = .ok (c, t')) : Suffix t' t := by
+  obtain ⟨iv, hiv, _⟩ := skeEncrypt_ok h
+  exact takeBytes_suffix hiv
+
 theorem encAll_nonzero (ske : AESxCBC) (lv : Leaves) (key : Bytes) (xs : List Bytes) (t t' : Tape) (cs : List Bytes)
     (h : encAll ske lv key xs t = .ok (cs, t')) (hg : GoodTape t) : (∀ c ∈ cs, allZero c = false) ∧ Suffix t' t := by
   induction xs generalizing t cs with
